@@ -18,7 +18,11 @@
      App id t m           *thrift.ApplicationException   {t, m}
      Foreign bv id t s    any other type with Error() string = s and TypeId() int32 = t
                           (bv = true: a comparable struct passed by value; false: a pointer)
-   All modelled dynamic types are comparable, as errors.Is requires for the [==] step. *)
+     Opaque id s          an error of a NON-comparable dynamic type (e.g. a slice type) with Error() = s
+                          and no other method: Go's errors.Is never applies [==] to it, and [==]
+                          between two such values panics, so [same] is false for it — even against
+                          itself — and code that compares it with [==] is outside the model (a panic
+                          the harness reports). *)
 From GV Require Import Lib.Bytes Lib.Res Gen.Consts.
 Open Scope N_scope.
 
@@ -28,10 +32,11 @@ Inductive err : Type :=
 | Transport (id : N) (t : Z) (m : bytes)
 | Protocol (id : N) (t : Z) (m : bytes) (c : option err)
 | App (id : N) (t : Z) (m : bytes)
-| Foreign (byval : bool) (id : N) (t : Z) (s : bytes).
+| Foreign (byval : bool) (id : N) (t : Z) (s : bytes)
+| Opaque (id : N) (s : bytes).
 
 (* dynamic type as seen by a type switch *)
-Inductive kind : Type := KPlain | KWrapped | KTransport | KProtocol | KApp | KForeign.
+Inductive kind : Type := KPlain | KWrapped | KTransport | KProtocol | KApp | KForeign | KOpaque.
 
 Definition kind_of (e : err) : kind :=
   match e with
@@ -41,6 +46,7 @@ Definition kind_of (e : err) : kind :=
   | Protocol _ _ _ _ => KProtocol
   | App _ _ _ => KApp
   | Foreign _ _ _ _ => KForeign
+  | Opaque _ _ => KOpaque
   end.
 
 (* ---------- strings ---------- *)
@@ -111,6 +117,7 @@ Fixpoint text (e : err) : bytes :=
   | Protocol _ t m _ => app_text t m
   | App _ t m => app_text t m
   | Foreign _ _ _ s => s
+  | Opaque _ s => s
   end.
 
 (* Msg() of the three thrift kinds: the stored field, without the default-message fallback *)
@@ -124,7 +131,7 @@ Definition msg_of (e : err) : option bytes :=
 Definition type_id (e : err) : option Z :=
   match e with
   | Transport _ t _ | Protocol _ t _ _ | App _ t _ | Foreign _ _ t _ => Some t
-  | Plain _ _ | Wrapped _ _ _ => None
+  | Plain _ _ | Wrapped _ _ _ | Opaque _ _ => None
   end.
 
 (* Go interface equality err == target *)
@@ -161,7 +168,7 @@ Definition prepend (nid : N) (p : bytes) (e : err) : err :=
   | Protocol _ t _ _ => new_protocol nid t (p ++ text e)
   | App _ t _ => new_app nid t (p ++ text e)
   | Foreign _ _ t _ => new_app nid t (p ++ text e)
-  | Plain _ _ | Wrapped _ _ _ => Plain nid (p ++ text e)
+  | Plain _ _ | Wrapped _ _ _ | Opaque _ _ => Plain nid (p ++ text e)
   end.
 
 (* a nil error: every type test fails and err.Error() dereferences nil *)
